@@ -52,6 +52,7 @@ fn base(channels: usize, bits: usize, block: usize, nfull: usize, residue: usize
         faults: vec![],
         hashq_cap: 16,
         probe_reads: vec![],
+        len_hint_off: 0,
         cfg_block: None,
         pre_reads: 0,
         synthetic_silence: false,
